@@ -345,7 +345,8 @@ def _call_kwargs(op, path):
 
 def _read(path):
     try:
-        with open(path) as f:
+        # a sink cut in the middle of a character is a wrong document, not a harness error
+        with open(path, encoding="utf-8", errors="replace") as f:
             return f.read()
     except OSError:
         return None
